@@ -4,6 +4,7 @@ import (
 	"encoding/json"
 	"fmt"
 	"math"
+	"os"
 	"reflect"
 	"strings"
 
@@ -33,6 +34,8 @@ type c08Case struct {
 	Frag  string          `json:"fragment,omitempty"`
 	Ctx   int             `json:"context,omitempty"`
 	N     int             `json:"n,omitempty"`
+	// Choices is the map-iteration schedule of the worst weighted build (scaled families)
+	Choices []int `json:"choices,omitempty"`
 }
 
 type c08Out struct {
@@ -494,38 +497,223 @@ func c08Pump(ctx *core.Ctx) {
 			}
 		}
 	}
-	// scaled model families through printer and graph builders
-	if ctx.Shard == 0 {
-		for _, fam := range []string{"chain", "fan-in", "restrictions", "ttu-cycle"} {
-			var prev int64
-			for _, n := range []int{16, 32, 64} {
-				m := scaledModel(fam, n)
-				pm := ref.ToProto(m)
-				o := c08Call(func() (bool, error) {
-					if _, e := transformer.TransformJSONProtoToDSL(pm); e != nil {
-						return false, e
-					}
-					if _, e := graph.NewAuthorizationModelGraph(pm); e != nil {
-						return false, e
-					}
-					g, e := graph.NewWeightedAuthorizationModelGraphBuilder().Build(pm)
-					return g != nil, e
-				})
-				ctx.Trans(1)
-				cs := c08Case{Entry: "print+graphs on scaled model " + fam, N: n}
-				if o.panic != nil || o.hang {
-					ctx.Violation("panic", fmt.Sprintf("scaled model %s n=%d: panic=%v hang=%v", fam, n, o.panic, o.hang), cs, "", "")
-					break
-				}
-				if prev > 2000 {
-					exp := math.Log2(float64(o.steps) / float64(prev))
-					if exp > 2.5 {
-						ctx.Violation("super-quadratic", fmt.Sprintf("scaled model %s: %d steps at n=%d, %d at n=%d (exponent %.2f)", fam, prev, n/2, o.steps, n, exp), cs, "<= 2.5", fmt.Sprintf("%.2f", exp))
-					}
-				}
-				prev = o.steps
+	c08Scaled(ctx)
+}
+
+// ---- scaled model families ---------------------------------------------------------------
+
+// scaledFamilies: four hand-picked shapes plus every "cell" family: a model of n levels, level i holding relations x<i> and y<i>
+// whose rewrites are drawn from a menu over the next level's relations (computed, union / intersection / exclusion of the two,
+// direct assignment with usersets of the next level, tuple-to-userset, the sibling), the last level being [user] - or, in the
+// wrapped variant, [user, doc#x0], which closes one tuple cycle over the whole chain. Every pair of menu entries is a family.
+func scaledFamilies() []string {
+	out := []string{"chain", "fan-in", "restrictions", "ttu-cycle"}
+	for x := range cellMenu {
+		for y := range cellMenu {
+			if cellMenu[y].sibling {
+				continue
+			}
+			for _, wrap := range []string{"open", "wrapped"} {
+				out = append(out, fmt.Sprintf("cell:%d:%d:%s", x, y, wrap))
 			}
 		}
+	}
+	return out
+}
+
+type cellEntry struct {
+	tag     string
+	sibling bool
+	mk      func(xn, yn, sib string) (*ref.Rewrite, []ref.Restriction)
+}
+
+var cellMenu = []cellEntry{
+	{"x'", false, func(xn, yn, sib string) (*ref.Rewrite, []ref.Restriction) { return ref.C(xn), nil }},
+	{"x' or y'", false, func(xn, yn, sib string) (*ref.Rewrite, []ref.Restriction) { return ref.U(ref.C(xn), ref.C(yn)), nil }},
+	{"x' and y'", false, func(xn, yn, sib string) (*ref.Rewrite, []ref.Restriction) { return ref.I(ref.C(xn), ref.C(yn)), nil }},
+	{"x' but not y'", false, func(xn, yn, sib string) (*ref.Rewrite, []ref.Restriction) { return ref.D(ref.C(xn), ref.C(yn)), nil }},
+	{"[user] or x'", false, func(xn, yn, sib string) (*ref.Rewrite, []ref.Restriction) {
+		return ref.U(ref.T(), ref.C(xn)), []ref.Restriction{{Type: "user"}}
+	}},
+	{"[user, doc#x']", false, func(xn, yn, sib string) (*ref.Rewrite, []ref.Restriction) {
+		return ref.T(), []ref.Restriction{{Type: "user"}, {Type: "doc", Relation: xn}}
+	}},
+	{"x' from p or y'", false, func(xn, yn, sib string) (*ref.Rewrite, []ref.Restriction) { return ref.U(ref.TT(xn, "p"), ref.C(yn)), nil }},
+	{"[user, doc#x', doc#y']", false, func(xn, yn, sib string) (*ref.Rewrite, []ref.Restriction) {
+		return ref.T(), []ref.Restriction{{Type: "user"}, {Type: "doc", Relation: xn}, {Type: "doc", Relation: yn}}
+	}},
+	{"sibling or x'", true, func(xn, yn, sib string) (*ref.Rewrite, []ref.Restriction) { return ref.U(ref.C(sib), ref.C(xn)), nil }},
+}
+
+func familyTag(fam string) string {
+	var x, y int
+	var wrap string
+	if n, _ := fmt.Sscanf(strings.ReplaceAll(fam, ":", " "), "cell %d %d %s", &x, &y, &wrap); n == 3 {
+		return fmt.Sprintf("cell family (x<i>: %s | y<i>: %s | %s)", cellMenu[x].tag, cellMenu[y].tag, wrap)
+	}
+	return fam
+}
+
+// f14Family: the families known finding F14 is about - the chain is closed into one tuple cycle and both relations of a
+// level reach both relations of the next level through union-compatible forms (menu entries 1, 6, 7), so that a weight
+// assignment starting in mid-chain makes every relation on its stack a pending cycle reference.
+func f14Family(fam string) bool {
+	var x, y int
+	var wrap string
+	if n, _ := fmt.Sscanf(strings.ReplaceAll(fam, ":", " "), "cell %d %d %s", &x, &y, &wrap); n != 3 {
+		return false
+	}
+	both := map[int]bool{1: true, 6: true, 7: true}
+	return wrap == "wrapped" && both[x] && both[y]
+}
+
+const f14 = "F14-nested-tuple-cycles-cubic"
+
+// c08StartOrders builds the weighted graph once for every node the depth-first weight assignment can start from (the first
+// answer of the start loop's map iteration; the rest of the schedule is the default) and returns the largest step count.
+func c08StartOrders(ctx *core.Ctx, pm *openfgav1.AuthorizationModel) (worst c08Out, worstChoices []int, runs int) {
+	build := func() (bool, error) {
+		g, e := graph.NewWeightedAuthorizationModelGraphBuilder().Build(pm)
+		return g != nil, e
+	}
+	var o c08Out
+	pts := rt.Run(nil, nil, func() { o = c08Call(build) })
+	worst, runs = o, 1
+	idx := -1
+	for i, p := range pts {
+		if p.Site == wgRootSite {
+			idx = i
+			break
+		}
+	}
+	if idx < 0 || o.panic != nil || o.hang {
+		return
+	}
+	ctx.Flag("c08:start-orders")
+	prefix := make([]int, idx) // the default answers (0) up to the start loop, spelled out
+	for i := range prefix {
+		prefix[i] = pts[i].Choice
+	}
+	for alt := 1; alt < pts[idx].N; alt++ {
+		ch := append(append([]int{}, prefix...), alt)
+		rt.Run(ch, nil, func() { o = c08Call(build) })
+		runs++
+		if o.panic != nil || o.hang || o.steps > worst.steps {
+			worst, worstChoices = o, ch
+			if o.panic != nil || o.hang {
+				return
+			}
+		}
+	}
+	return
+}
+
+// c08ScaledOne measures one family at growing sizes: printer and both graph builders under the default schedule, and the
+// weighted builder from every start node.
+func c08ScaledOne(ctx *core.Ctx, fam string) {
+	var prev, prevW int64
+	sizes := []int{8, 16, 32, 64}
+	for _, n := range sizes {
+		m := scaledModel(fam, n)
+		pm := ref.ToProto(m)
+		var stage string
+		o := c08Call(func() (bool, error) {
+			stage = "TransformJSONProtoToDSL"
+			if _, e := transformer.TransformJSONProtoToDSL(pm); e != nil {
+				return false, e
+			}
+			stage = "NewAuthorizationModelGraph"
+			if _, e := graph.NewAuthorizationModelGraph(pm); e != nil {
+				return false, e
+			}
+			stage = "WeightedAuthorizationModelGraphBuilder.Build"
+			g, e := graph.NewWeightedAuthorizationModelGraphBuilder().Build(pm)
+			return g != nil, e
+		})
+		ctx.Trans(1)
+		cs := c08Case{Entry: "scaled", Mut: fam, N: n}
+		if o.panic != nil || o.hang {
+			kind := "panic"
+			if o.hang {
+				kind = "step-horizon-exceeded"
+			}
+			ctx.Violation(kind, fmt.Sprintf("scaled model %s with n=%d (%d relations): in %s: panic=%v, step horizon (%d) exceeded=%v", familyTag(fam), n, relCount(m), stage, o.panic, int64(c08Horizon), o.hang), cs, "", "")
+			return
+		}
+		if o.err != nil {
+			ctx.Flag("c08:scaled-rejected")
+		} else {
+			ctx.Flag("c08:scaled-accepted")
+		}
+		if prev > 2000 {
+			exp := math.Log2(float64(o.steps) / float64(prev))
+			ctx.State(fmt.Sprintf("scaled-exp~%.0f", math.Round(exp*2)/2))
+			if exp > 2.5 {
+				ctx.Violation("super-quadratic", fmt.Sprintf("scaled model %s: %d steps at n=%d, %d at n=%d (exponent %.2f)", familyTag(fam), prev, n/2, o.steps, n, exp), cs, "<= 2.5", fmt.Sprintf("%.2f", exp))
+				return
+			}
+			if ctx.WantSample() && n == 64 && strings.HasPrefix(fam, "cell") {
+				ctx.Sample(map[string]any{"kind": "scaled-model", "family": familyTag(fam), "n": n, "steps_n_half": prev, "steps_n": o.steps, "growth_exponent": math.Round(exp*100) / 100})
+			}
+		}
+		prev = o.steps
+		// the weighted builder from every start node
+		if n > 32 && !ctx.Thorough() {
+			continue
+		}
+		w, wch, runs := c08StartOrders(ctx, pm)
+		ctx.Trans(runs)
+		cs.Choices = wch
+		if w.panic != nil || w.hang {
+			kind := "panic"
+			if w.hang {
+				kind = "step-horizon-exceeded"
+			}
+			ctx.Violation(kind, fmt.Sprintf("scaled model %s with n=%d (%d relations), weight assignment started by schedule %v: panic=%v, step horizon (%d) exceeded=%v", familyTag(fam), n, relCount(m), wch, w.panic, int64(c08Horizon), w.hang), cs, "", "")
+			return
+		}
+		if os.Getenv("VERIF_DEBUG_SCALED") != "" {
+			fmt.Fprintf(os.Stderr, "SCALED %s n=%d default=%d worst-start=%d runs=%d\n", familyTag(fam), n, o.steps, w.steps, runs)
+		}
+		if prevW > 2000 {
+			exp := math.Log2(float64(w.steps) / float64(prevW))
+			ctx.State(fmt.Sprintf("scaled-start-exp~%.0f", math.Round(exp*2)/2))
+			if exp > 2.5 {
+				if core.IsKnown(f14) && f14Family(fam) && exp <= 3.75 {
+					ctx.Known(f14, fmt.Sprintf("%s, weighted builder under its worst start node (schedule %v): %d steps at n=%d, %d at n=%d (exponent %.2f)", familyTag(fam), wch, prevW, n/2, w.steps, n, exp))
+				} else {
+					ctx.Violation("super-quadratic", fmt.Sprintf("scaled model %s, weighted builder under its worst start node: %d steps at n=%d, %d at n=%d (exponent %.2f)", familyTag(fam), prevW, n/2, w.steps, n, exp), cs, "<= 2.5", fmt.Sprintf("%.2f", exp))
+					if os.Getenv("VERIF_DEBUG_SCALED") == "" {
+						return
+					}
+				}
+			}
+		}
+		prevW = w.steps
+	}
+	ctx.Flag("c08:scaled-families")
+	ctx.Nontrivial("scaled:" + fam)
+}
+
+func relCount(m *ref.Model) int {
+	n := 0
+	for _, t := range m.Types {
+		n += len(t.Rels)
+	}
+	return n
+}
+
+func c08Scaled(ctx *core.Ctx) {
+	for i, fam := range scaledFamilies() {
+		if !ctx.Mine(i) {
+			continue
+		}
+		if ctx.Expired() {
+			ctx.Cap("wall-clock cap in the scaled model families")
+			return
+		}
+		ctx.Eval(1)
+		c08ScaledOne(ctx, fam)
 	}
 }
 
@@ -533,6 +721,23 @@ func scaledModel(fam string, n int) *ref.Model {
 	u := []ref.Restriction{{Type: "user"}}
 	doc := ref.TypeDef{Name: "doc"}
 	name := func(i int) string { return fmt.Sprintf("r%d", i) }
+	var cx, cy int
+	var wrap string
+	if k, _ := fmt.Sscanf(strings.ReplaceAll(fam, ":", " "), "cell %d %d %s", &cx, &cy, &wrap); k == 3 {
+		doc.Rels = append(doc.Rels, ref.Relation{Name: "p", Rw: ref.T(), Restr: []ref.Restriction{{Type: "doc"}}})
+		for i := 0; i < n; i++ {
+			xn, yn := fmt.Sprintf("x%d", i+1), fmt.Sprintf("y%d", i+1)
+			rx, lx := cellMenu[cx].mk(xn, yn, fmt.Sprintf("y%d", i))
+			ry, ly := cellMenu[cy].mk(xn, yn, fmt.Sprintf("x%d", i))
+			doc.Rels = append(doc.Rels, ref.Relation{Name: fmt.Sprintf("x%d", i), Rw: rx, Restr: lx}, ref.Relation{Name: fmt.Sprintf("y%d", i), Rw: ry, Restr: ly})
+		}
+		last := u
+		if wrap == "wrapped" {
+			last = []ref.Restriction{{Type: "user"}, {Type: "doc", Relation: "x0"}}
+		}
+		doc.Rels = append(doc.Rels, ref.Relation{Name: fmt.Sprintf("x%d", n), Rw: ref.T(), Restr: last}, ref.Relation{Name: fmt.Sprintf("y%d", n), Rw: ref.T(), Restr: u})
+		return &ref.Model{Schema: "1.1", Types: []ref.TypeDef{{Name: "user"}, doc}}
+	}
 	switch fam {
 	case "chain":
 		doc.Rels = append(doc.Rels, ref.Relation{Name: name(0), Rw: ref.T(), Restr: u})
@@ -778,7 +983,7 @@ func init() {
 		Rule: "(a) every string of <= 3 lexemes over a 38-lexeme DSL alphabet (length 3 over a 30-lexeme alphabet in quick) appended to 10 valid document prefixes, through TransformDSLToProto/JSON, TransformModularDSLToProto and as member of 1- and 2-file module sets; accepted texts continue through printer and both graph builders; " +
 			"every DSL text of the repository's shared test-data corpus with all its single mutations (each piece deleted, each of 30 lexemes inserted at each boundary; quick: for every 12th document); every string of <= 3/4 tokens over JSON and YAML token alphabets through TransformJSONStringToDSL / TransformModFile; every JSON value of two valid model documents replaced by 9 other JSON values. " +
 			"(b) fault enumeration on protobufs: every single and every pair (quick: pairs on the small base model) of degradations (pointer nil / empty, slice nil / drop / nil element, map nil / nil value / renamed key, string empty, oneof nil / nil payload, enum 0 / out of range) of three base models (one of them not DSL-expressible: direct assignment in subtract and non-first positions, nested unary operators) through printer (both options), plain graph (+Reversed, GetDOT, GetCycles, PathExists) and weighted builder. " +
-			"(c) pumping: every fragment of <= 2 lexemes (thorough: + every 3rd 3-lexeme fragment) repeated n and 2n times (n = 32 / 64) in 10 insertion contexts, and 4 scaled model families: deterministic step counts from build-time instrumentation, growth exponent log2(S(2n)/S(n)) <= 2.5, horizon 5e7 steps. " +
+			"(c) pumping: every fragment of <= 2 lexemes (thorough: + every 3rd 3-lexeme fragment) repeated n and 2n times (n = 32 / 64) in 10 insertion contexts; scaled model families through printer and both graph builders at n = 8, 16, 32, 64: four fixed shapes (computed chain, fan-in union, long restriction list, TTU cycle) and every cell family (n levels of two relations whose rewrites range over a 9 x 8 menu over the next level - computed, union / intersection / exclusion of both, direct assignment with usersets of the next level, TTU, the sibling - with the last level open or wrapped back to the first as one tuple cycle: 144 families incl. all diamond-shaped DAGs); deterministic step counts from build-time instrumentation, growth exponent log2(S(2n)/S(n)) <= 2.5, horizon 5e7 steps. " +
 			"states = outcome classes, non-trivial = distinct accepted texts and fault names",
 		Assume: []string{
 			"work is measured in instrumented steps (function entries and loop iterations of the repository, the antlr runtime, the generated parser and yaml.v3); built-ins, protobuf and regexp internals are not counted",
@@ -788,7 +993,7 @@ func init() {
 		Technique: "bounded exhaustive enumeration of texts and of protobuf fault combinations with a panic guard and a deterministic step-count horizon",
 		Run:       c08Run,
 		Finish: func(r *core.Result) error {
-			for _, f := range []string{"c08:steps-live", "c08:some-error", "c08:some-result", "c08:unlexable-rejected", "c08:fault-enumeration", "c08:pumped", "c08:json-replacement", "c08:module-file-sets", "c08:corpus-mutations"} {
+			for _, f := range []string{"c08:steps-live", "c08:some-error", "c08:some-result", "c08:unlexable-rejected", "c08:fault-enumeration", "c08:pumped", "c08:json-replacement", "c08:module-file-sets", "c08:corpus-mutations", "c08:scaled-families", "c08:scaled-accepted", "c08:scaled-rejected"} {
 				if !r.Flags[f] {
 					return fmt.Errorf("C08: guard %q never exercised", f)
 				}
@@ -809,6 +1014,8 @@ func init() {
 				if exp := math.Log2(float64(s2-s0) / float64(s1-s0)); exp > 2.5 {
 					ctx.Violation("super-quadratic", fmt.Sprintf("fragment %q: exponent %.2f", cs.Frag, exp), cs, "<= 2.5", fmt.Sprintf("%.2f", exp))
 				}
+			case cs.Entry == "scaled":
+				c08ScaledOne(ctx, cs.Mut)
 			case cs.Entry == "TransformJSONStringToDSL":
 				o := c08Call(func() (bool, error) { p, e := transformer.TransformJSONStringToDSL(cs.Text); return p != nil, e })
 				c08Judge(ctx, cs, o)
